@@ -69,12 +69,42 @@ func (o *rootOpts) openOutput(cmd *cobra.Command, args []string) (io.WriteCloser
 		if !o.overwriteOutputFile && !o.inPlace {
 			flags |= os.O_EXCL
 		}
-		return os.OpenFile(outFile, flags, os.ModePerm)
+		f, err := os.OpenFile(outFile, flags, os.ModePerm)
+		if err != nil {
+			return nil, err
+		}
+		return &outputFile{File: f}, nil
 	}
 	if o.inPlace {
 		return nil, errors.New("cannot overwrite STDIN")
 	}
 	return writeCloser{cmd.OutOrStdout()}, nil
+}
+
+// outputFile cuts the file off at the end of what was written when it is
+// closed, so that nothing of a longer previous content is left behind. The
+// file cannot be truncated when it is opened: with --in-place it is the input,
+// which has not been read yet, and a command that fails writes nothing and
+// leaves the file as it was.
+type outputFile struct {
+	*os.File
+	written int64
+}
+
+func (f *outputFile) Write(p []byte) (int, error) {
+	n, err := f.File.Write(p)
+	f.written += int64(n)
+	return n, err
+}
+
+func (f *outputFile) Close() error {
+	if f.written > 0 {
+		if err := f.File.Truncate(f.written); err != nil {
+			_ = f.File.Close()
+			return err
+		}
+	}
+	return f.File.Close()
 }
 
 type writeCloser struct {
